@@ -255,6 +255,11 @@ def check(ctx):
         ctx.ob("DOM.emit-critical-path", c, "add_to_result(item) only when num_needed[item] == 0", ok, "" if ok else "guards: " + "; ".join(fact_strs(facts)))
     ctx.count("main_emit_sites", len(main_calls))
     ctx.floor("main_emit_sites", 1)
+    # ---------------- the reverse mapping used to find external keys is derived from the graph that is ordered
+    dp = find("dependencies = DependenciesMapping(dsk)", order)
+    dd = find("dependents = reverse_dict(dependencies)", order)
+    ok = len(dp) == 1 and len(dd) == 1 and dominates(order, dp[0][0], dd[0][0]) and [d_[2] for d_ in reaching_of(order).reaching(dd[0][0], "dependencies")] == [dp[0][0]]
+    ctx.ob("OWN.dependents-from-graph", order, "dependents = reverse_dict(DependenciesMapping(dsk)) -- computed from this graph, including references to keys outside it", ok, "" if ok else "the reverse mapping comes from the caller's `dependencies` argument, which only lists in-graph keys: references to outside keys are no longer detected and ordering an acyclic graph raises")
 
 
 VARIANTS = [
